@@ -16,11 +16,13 @@ from ..repo import AnalysisError, norm, walk_no_nested
 from ..partition import MiniInterp, Opaque, FRESH
 
 LEVEL = "other"
-TECHNIQUE = "stream-filter effect table by branch partition over token type x preserve depth x element; regex-literal analysis; table equality"
-CLAIM = ("The complete effect table of the filter's loop body shows that every token is passed on exactly once and in order, "
-         "that only text tokens outside preserved elements are rewritten, and how the preserve depth evolves; the collapsing "
-         "pattern is a +-repetition of exactly the five HTML white-space characters replaced by one space.")
-NOT_DECIDED = "white-space runs split across adjacent text tokens (the filter has no cross-token state); unbalanced streams."
+TECHNIQUE = "stream-filter evaluation of the loop body (carried loop state) over token type x preserve depth x element x data class and adjacent text tokens, compared with a reference collapse; regex-literal analysis; table equality"
+CLAIM = ("The filter's loop body, evaluated on every single token (type x preserve depth x element x data class) and on every pair "
+         "/ selected triples of adjacent text tokens and text around a tag, passes every non-text token on exactly once, in order and "
+         "unchanged, and writes between them exactly the text with each maximal white-space run -- also one split over adjacent "
+         "tokens -- collapsed to one space (unchanged inside preserved elements); the preserve depth evolves as specified; the "
+         "collapsing pattern is a +-repetition of exactly the five HTML white-space characters replaced by one space.")
+NOT_DECIDED = "streams longer than three tokens are covered by the loop state being (preserve depth, run-in-progress flag) only; unbalanced streams."
 MODULES = ["filters/whitespace.py", "filters/base.py", "constants.py"]
 REL = "filters/whitespace.py"
 TYPES = ["Doctype", "Characters", "SpaceCharacters", "StartTag", "EndTag", "EmptyTag", "Comment", "Entity", "SerializeError", FRESH]
@@ -40,73 +42,158 @@ def run(ctx):
     cls = repo.cls(REL, "Filter")
     mod = f.module
     body = [s for s in f.node.body if not (isinstance(s, ast.Expr) and isinstance(s.value, ast.Constant))]
-    if not (len(body) == 2 and isinstance(body[0], ast.Assign) and isinstance(body[1], ast.For) and
-            isinstance(body[0].value, ast.Constant) and body[0].value.value == 0 and
-            norm(body[1].iter) == "base.Filter.__iter__(self)" and isinstance(body[1].target, ast.Name)):
-        raise AnalysisError("whitespace Filter.__iter__ is not `counter = 0; for token in base.Filter.__iter__(self): ...`")
-    counter = body[0].targets[0].id
-    tok = body[1].target.id
+    loops = [s for s in body if isinstance(s, ast.For)]
+    if not (len(loops) == 1 and body[-1] is loops[0] and norm(loops[0].iter) == "base.Filter.__iter__(self)" and isinstance(loops[0].target, ast.Name)
+            and all(isinstance(s, ast.Assign) and len(s.targets) == 1 and isinstance(s.targets[0], ast.Name) and isinstance(s.value, ast.Constant) for s in body[:-1])):
+        raise AnalysisError("whitespace Filter.__iter__ is not `<constant initialisations>; for token in base.Filter.__iter__(self): ...`")
+    init_env = {s.targets[0].id: s.value.value for s in body[:-1]}
+    aug = {a.target.id for a in ast.walk(loops[0]) if isinstance(a, ast.AugAssign) and isinstance(a.target, ast.Name)}
+    counters = [k for k, v in init_env.items() if v == 0 and not isinstance(v, bool) and k in aug]
+    if len(counters) != 1:
+        raise AnalysisError("whitespace filter: the preserve-depth counter was not identified (%s)" % counters)
+    counter = counters[0]
+    tok = loops[0].target.id
     preserve_set = ce.eval(cls.assigns["spacePreserveElements"], mod)
+    import re as _re
+    pat_src = None
+    for st in mod.tree.body:
+        if isinstance(st, ast.Assign) and norm(st.targets[0]) == "SPACES_REGEX" and isinstance(st.value, ast.Call) and norm(st.value.func) == "re.compile":
+            pat_src = ce.try_eval(st.value.args[0], mod)
+    spaces_re = _re.compile(pat_src) if isinstance(pat_src, str) else None
+    helper = mod.functions.get("collapse_spaces")
+    helper_plain = helper is not None and [norm(x) for x in helper.node.body if not isinstance(x, ast.Expr)] == ["return SPACES_REGEX.sub(' ', %s)" % helper.params()[0]]
 
     def expr_hook(node, env):
         if norm(node) == "self.spacePreserveElements":
             return preserve_set
+        if isinstance(node, ast.Call) and spaces_re is not None:
+            fn = norm(node.func)
+            if fn == "collapse_spaces" and helper_plain and len(node.args) == 1:
+                return spaces_re.sub(" ", ce.eval(node.args[0], mod, env))
+            if fn == "SPACES_REGEX.sub" and len(node.args) == 2:
+                return spaces_re.sub(ce.eval(node.args[0], mod, env), ce.eval(node.args[1], mod, env))
         return NotImplemented
-    interp = MiniInterp(ce, mod, expr_hook=expr_hook)
-    # one-line helper methods of the filter (self.m(token)) are inlined
     from ..repo import inline_simple_calls
-    loop_body = [inline_simple_calls(mod, s, cls=cls) for s in body[1].body]
+    loop_body = [inline_simple_calls(mod, s, cls=cls) for s in loops[0].body]
     html_ns = ce.const("constants.py", "namespaces")["html"]
+
+    def run_stream(tokens, depth):
+        """feed the tokens through the loop body; returns ([(identity index or None, snapshot)], final env) or raises"""
+        env = dict(init_env)
+        env[counter] = depth
+        env["self"] = Opaque("self")
+        outs = []
+
+        def stmt_hook(st, o, interp):
+            if isinstance(st, ast.Expr) and isinstance(st.value, ast.Yield):
+                v = interp.eval_expr(st.value.value, o.env)
+                idx = next((k for k, t in enumerate(tokens) if t is v), None)
+                outs.append((idx, dict(v) if isinstance(v, dict) else v))
+                return False
+            if isinstance(st, ast.Assign) and len(st.targets) == 1 and isinstance(st.targets[0], ast.Subscript) and \
+                    isinstance(st.targets[0].value, ast.Name) and st.targets[0].value.id == tok:
+                keyv = interp.eval_expr(st.targets[0].slice, o.env)
+                o.env[tok][keyv] = interp.eval_expr(st.value, o.env)
+                return False
+            return NotImplemented
+        interp = MiniInterp(ce, mod, expr_hook=expr_hook, stmt_hook=stmt_hook)
+        for t in tokens:
+            env[tok] = t
+            res = interp.run(loop_body, env)
+            other = [e for e in res.effects]
+            if other:
+                raise AnalysisError("effect outside the token: %s" % other[0].text[:60])
+            env = res.env
+            env.pop("__flow__", None)
+        return outs, env
+
+    def collapse(text):
+        return _re.sub("[\t\n\x0c\r ]+", " ", text)
+
+    def judge(tokens, depth, key):
+        originals = [dict(t) for t in tokens]
+        try:
+            outs, env = run_stream(tokens, depth)
+        except AnalysisError as e:
+            r.idiom("R17.1", False, key, f.where, "whitespace filter not decidable for this stream (%s)" % str(e)[:90])
+            return
+        except Exception as e:      # noqa: BLE001
+            r.idiom("R17.1", False, key, f.where, "whitespace filter not decidable for this stream (%s: %s)" % (type(e).__name__, str(e)[:70]))
+            return
+        problems = []
+        # expected: non-text tokens once each, in order, unchanged; between them the text, collapsed across token boundaries
+        d = depth
+        exp = []        # list of ("tok", index) / ("text", string)
+        for k, t in enumerate(originals):
+            ty = t["type"]
+            if ty in ("Characters", "SpaceCharacters"):
+                if exp and exp[-1][0] == "text":
+                    exp[-1] = ("text", exp[-1][1] + t["data"], exp[-1][2])
+                else:
+                    exp.append(("text", t["data"], d))
+            else:
+                exp.append(("tok", k))
+                if ty == "StartTag" and (d > 0 or t["name"] in preserve_set):
+                    d += 1
+                elif ty == "EndTag" and d > 0:
+                    d -= 1
+        exp = [(e[0], (collapse(e[1]) if e[2] == 0 else e[1])) if e[0] == "text" else e for e in exp]
+        got = []
+        for idx, snap in outs:
+            if idx is None or not isinstance(snap, dict):
+                problems.append("yields something that is not a token of the source")
+                continue
+            if originals[idx]["type"] in ("Characters", "SpaceCharacters"):
+                if {k_: v for k_, v in snap.items() if k_ != "data"} != {k_: v for k_, v in originals[idx].items() if k_ != "data"}:
+                    problems.append("a text token is changed in more than its data")
+                if got and got[-1][0] == "text":
+                    got[-1] = ("text", got[-1][1] + snap["data"])
+                else:
+                    got.append(("text", snap["data"]))
+            else:
+                if snap != originals[idx]:
+                    problems.append("a %s token is modified" % originals[idx]["type"])
+                got.append(("tok", idx))
+        # an empty text group may be dropped or passed on empty
+        norm_ = lambda seq: [x for x in seq if not (x[0] == "text" and x[1] == "")]      # noqa: E731
+        if norm_(got) != norm_(exp) and not problems:
+            problems.append("output %s, expected %s" % (norm_(got), norm_(exp)))
+        if env.get(counter) != d:
+            problems.append("preserve depth %s -> %s (expected %s)" % (depth, env.get(counter), d))
+        r.check("R17.1", not problems, key, f.where, "whitespace filter, %s: %s" % (key, "; ".join(problems)), {"case": key},
+                detail={"case": key, "depth_after": env.get(counter)})
     # namespace of the element token: the HTML namespace, None (trees built with namespaceHTMLElements=False) or absent
     # (hand-made streams); whether a *foreign* element called pre preserves white space is not part of the statement
     NS_CASES = (("html", html_ns), ("none", None), ("absent", "<absent>"))
     for ty in TYPES:
         for depth in (0, 1, 2):
             for name in ("pre", "div"):
-              for ns_label, ns_val in (NS_CASES if ty == "StartTag" and depth == 0 and name == "pre" else NS_CASES[:1]):
-                for data in ("", " \n", "a  b"):
-                    token = {"type": ty, "name": name, "data": data}
-                    if ns_val != "<absent>":
-                        token["namespace"] = ns_val
-                    res = interp.run(loop_body, {tok: token, counter: depth, "self": Opaque("self")})
-                    ys = [e for e in res.effects if isinstance(e.node, ast.Expr) and isinstance(e.node.value, ast.Yield)]
-                    writes = [e for e in res.effects if e not in ys]
-                    key = "type=%s depth=%d elem=%s%s data=%r" % (ty, depth, name, "" if ns_label == "html" else "[namespace %s]" % ns_label, data)
-                    problems = []
-                    if len(ys) != 1 or norm(ys[0].node.value.value) != tok:
-                        problems.append("yields %s" % [e.text for e in ys])
-                    # the yield must be the last effect (rewrites happen before the token is passed on)
-                    if ys and res.effects and res.effects[-1] is not ys[0]:
-                        problems.append("token modified after being yielded")
-                    text = ty in ("Characters", "SpaceCharacters")
-                    for w in writes:
-                        if not (isinstance(w.node, ast.Assign) and norm(w.node.targets[0]) == "%s['data']" % tok):
-                            problems.append("effect %s" % w.text[:50])
-                        elif not (text and depth == 0):
-                            problems.append("data of a %s token rewritten at preserve depth %d" % (ty, depth))
-                        else:
-                            v = norm(w.node.value)
-                            if ty == "SpaceCharacters" and v != "' '":
-                                problems.append("white-space token rewritten to %s" % v)
-                            if ty == "Characters" and v not in ("collapse_spaces(%s['data'])" % tok, "SPACES_REGEX.sub(' ', %s['data'])" % tok):
-                                problems.append("text rewritten by %s" % v)
-                    if text and depth == 0 and data and not writes:
-                        problems.append("text outside a preserved element is not collapsed")
-                    if ty == "SpaceCharacters" and depth == 0 and not data and writes:
-                        problems.append("an empty white-space token becomes a space")
-                    nd = res.env.get(counter)
-                    exp = depth
-                    if ty == "StartTag" and (depth > 0 or name in preserve_set):
-                        exp = depth + 1
-                    elif ty == "EndTag" and depth > 0:
-                        exp = depth - 1
-                    if nd != exp:
-                        problems.append("preserve depth %s -> %s (expected %s)" % (depth, nd, exp))
-                    r.check("R17.1", not problems, key, f.where, "whitespace filter, %s: %s" % (key, "; ".join(problems)),
-                            {"case": key}, detail={"case": key, "depth_after": nd})
+                for ns_label, ns_val in (NS_CASES if ty == "StartTag" and depth == 0 and name == "pre" else NS_CASES[:1]):
+                    for data in ("", " \n", "a  b"):
+                        if ty == "SpaceCharacters" and data.strip():
+                            continue
+                        token = {"type": ty, "name": name, "data": data}
+                        if ns_val != "<absent>":
+                            token["namespace"] = ns_val
+                        key = "type=%s depth=%d elem=%s%s data=%r" % (ty, depth, name, "" if ns_label == "html" else "[namespace %s]" % ns_label, data)
+                        judge([token], depth, key)
+    # white-space runs that reach the filter split over adjacent text tokens (the DOM back-end keeps one text node per
+    # tokenizer token: `a &#32; b`), and runs on either side of a tag (which are separate runs)
+    TEXTS = [("Characters", "a "), ("Characters", " b"), ("Characters", "a"), ("SpaceCharacters", " "), ("SpaceCharacters", "\n\t")]
+    for depth in (0, 1):
+        for a in TEXTS:
+            for b in TEXTS:
+                judge([{"type": a[0], "data": a[1]}, {"type": b[0], "data": b[1]}], depth,
+                      "adjacent depth=%d %s %r + %s %r" % (depth, a[0], a[1], b[0], b[1]))
+    for a, b, c in ((("Characters", "a "), ("SpaceCharacters", " "), ("Characters", " b")), (("SpaceCharacters", " "), ("SpaceCharacters", " "), ("SpaceCharacters", " "))):
+        judge([{"type": x[0], "data": x[1]} for x in (a, b, c)], 0, "adjacent depth=0 %r + %r + %r" % (a[1], b[1], c[1]))
+    for mid in ({"type": "StartTag", "name": "b", "namespace": html_ns, "data": {}}, {"type": "Comment", "data": "c"}, {"type": "EndTag", "name": "b", "namespace": html_ns}):
+        judge([{"type": "Characters", "data": "a "}, mid, {"type": "Characters", "data": " b"}], 0, "across %s: 'a ' + ' b'" % mid["type"])
+        judge([{"type": "SpaceCharacters", "data": " "}, dict(mid), {"type": "SpaceCharacters", "data": " "}], 0, "across %s: ' ' + ' '" % mid["type"])
     # R17.2
     import re._parser as sp
     pat = None
+    cs = None
     for st in mod.tree.body:
         if isinstance(st, ast.Assign) and norm(st.targets[0]) == "SPACES_REGEX" and isinstance(st.value, ast.Call) \
                 and norm(st.value.func) == "re.compile":
@@ -153,6 +240,8 @@ def mutants():
         T("regex-s", REL, "SPACES_REGEX = re.compile(\"[%s]+\" % spaceCharacters)", "SPACES_REGEX = re.compile(\"\\\\s+\")", "R17.2"),
         T("regex-star", REL, "SPACES_REGEX = re.compile(\"[%s]+\" % spaceCharacters)", "SPACES_REGEX = re.compile(\"[%s]\" % spaceCharacters)", "R17.2"),
         T("preserve-no-textarea", REL, "frozenset([\"pre\", \"textarea\"] + list(rcdataElements))", "frozenset([\"pre\"] + list(rcdataElements))", "R17.3"),
+        T("adjacent-runs-not-joined", REL, "                if after_space:\n                    # The run of spaces began in the previous token\n                    continue\n", "", "R17.1"),
+        T("space-state-survives-a-tag", REL, "            else:\n                after_space = False\n", "", "R17.1"),
         T("endtag-always-decrements", REL, "            elif type == \"EndTag\" and preserve:\n                preserve -= 1", "            elif type == \"EndTag\":\n                preserve -= 1", "R17.1"),
     ]
 
